@@ -438,3 +438,18 @@ Theorem C13_refusal_chk_reachable : forall ops o e,
   sx_world (snd (CaseMut.step_chk (CaseMut.run_chk ops empty_world) o)) = sx_world (CaseMut.run_chk ops empty_world).
 Proof. intros ops o e. apply C13_refusal_chk. apply CaseWF.WFw_run_chk, WFw_empty. Qed.
 Print Assumptions C13_refusal_chk_reachable.
+
+(* ---- every operation and every error class (also TypeError / dead references inside add(tree) and
+   copy_to(add_self=False), which [C13_error_unchanged] left out): in a well-formed world the only exits
+   with a partial effect are a raising sort key and a raising filter predicate ---- *)
+From NT Require Import RefusalMultiAll.
+Theorem C13_error_unchanged_all : forall w o e,
+  WFw w -> partial_on_crash o = false -> fst (step w o) = Err e ->
+  sx_world (snd (step w o)) = sx_world w.
+Proof. intros w o e H P E. apply trees_sx_world. exact (error_all w o e H P E). Qed.
+Print Assumptions C13_error_unchanged_all.
+
+Example C13_error_all_nonvacuous :
+  (* a typed source copied into the plain tree: TypeError out of the loop of add(tree), nothing changed *)
+  fst (step c13_w (OAddTree 0 1 1 BNone None)) = Err EType /\ partial_on_crash (OAddTree 0 1 1 BNone None) = false.
+Proof. vm_compute. split; reflexivity. Qed.
